@@ -21,6 +21,8 @@ OPEN_CONFIGS = [
     ("cRF", "cRF", {"coupling_cutoff": "JCUT"}),
     ("cRF-sec", "cRF", {"coupling_cutoff": "JCUT", "secular_relaxation": True}),
     ("cRF-TD", "cRF", {"coupling_cutoff": "JCUT", "time_dependent": True}),
+    ("neF", "neF", {}),
+    ("neF-TD", "neF", {"time_dependent": True}),
 ]
 # direct constructors in quantarhei.qm
 DIRECT_CONFIGS = [
